@@ -495,4 +495,9 @@ theorem c04_x_api_fetch_ids :
       ["seqID, err := seq.FromString(id)", "if err != nil { appends: } else { ids = append(ids, seqID) }"] ∧
     SV.Extracted.C04.apiFetchSentID = ["doc.ID.String()"] := by decide
 
+/-- the hypothesis of `c04_api_fetch_ids` ("the texts a search response carried") is what the code produces: every
+document of a search, complex-search or export response gets `ID.String()` of its ID as its text -/
+theorem c04_x_api_response_id_texts :
+    SV.Extracted.C04.apiResponseIDTexts = ["makeProtoDocs: id.ID.String()", "Export: doc.ID.String()"] := by decide
+
 end SV.Props.C04
